@@ -138,6 +138,12 @@ func (c *checker) execute(s *Search, ops []Op) (vios []vio, nAnswers int, agreed
 			}
 			g := a.Got[wrong[0]]
 			sig := classify(a.Q, a.Want, g.Items, panicked, wrong, a.Obs, m, m2, op, ans)
+			if s.IDs != "" && op.R != "" {
+				// searches over related request ids: how the id the operation addressed relates to the others of its DAG
+				if dg, _ := m2.findAny(op.R); dg != "" {
+					sig += "/addressed-id=" + idRelation(op.R, m2.Runs[dg])
+				}
+			}
 			if seenSig[sig] {
 				c.res.Count("vio-more:"+sig, 1)
 				continue
@@ -289,6 +295,11 @@ func searches(thorough bool) []*Search {
 	// (2c) status payloads of about 1 KiB and 70 KiB (one status = one line of the history file)
 	add("payload/a", []string{"a.yaml"}, []int{tT0, tT3}, "run open update", nil, d(4, 5), 2, 1)
 	out[len(out)-1].Sizes = []string{"", "1k", "70k"}
+	// (2d) request ids related through the 8 characters the store puts into the file name: full-length ids sharing
+	//      them, one differing there, an id of exactly 8 characters, ids of 4 and 6 characters that are prefixes of
+	//      the others; runs started at different times, every one of them updated / written on
+	add("ids/a", []string{"a.yaml"}, all, "run open update", nil, d(4, 5), d(3, 4), 1)
+	out[len(out)-1].IDs = "mixed"
 	// (3) every collision-prone pair: rename / retention / deletion across names
 	pairs := [][]string{
 		{"a.yaml", "ab.yaml"}, {"a.yaml", "a_c.yaml"}, {"a.yaml", "a.b.yaml"}, {"a.yaml", "a b.yaml"},
